@@ -4,20 +4,20 @@ namespace Handlers.C18
 open Proto Pool
 
 def parseOp : Val → Option Op
-  | .l [.s "acq", .n t] => some (.acquire t)
-  | .l [.s "gbi", .n t] => some (.giveBackItem t)
-  | .l [.s "drop", .n t] => some (.dropItem t)
-  | .l [.s "set", .n d] => some (.setDisc d)
+  | .l [.s "acq", t] => t.nat?.map .acquire
+  | .l [.s "gbi", t] => t.nat?.map .giveBackItem
+  | .l [.s "drop", t] => t.nat?.map .dropItem
+  | .l [.s "set", d] => d.nat?.map .setDisc
   | .l [.s "clr"] => some .clear
   | .l [.s "rst"] => some .reset
-  | .l [.s "gb", .n g, .n d] => some (.giveBack ⟨g⟩ d)
+  | .l [.s "gb", g, d] => do pure (.giveBack ⟨← g.nat?⟩ (← d.nat?))
   | _ => none
 
 /-- observation of one call: what an acquire returned, and `count()` afterwards -/
 def obs (s : St) (op : Op) : St × String :=
   let s' := step s op
   let o := match op with
-    | .acquire tid =>
+    | .acquire _ =>
       match s.queue with
       | [] => "t"
       | r :: _ => s!"a({r.trueGen},{s.disc})"
